@@ -64,7 +64,18 @@ func (c *client) GetBlobRange(ctx context.Context, repo string, digest ociregist
 	if err != nil {
 		return nil, fmt.Errorf("invalid descriptor in response: %v", err)
 	}
-	return newBlobReaderUnverified(resp.Body, desc), nil
+	br := newBlobReaderUnverified(resp.Body, desc)
+	if resp.StatusCode == http.StatusPartialContent {
+		// There's no digest to check the content of a range against,
+		// but we do know how much of it there should be.
+		end := desc.Size
+		if o1 >= 0 && o1 < end {
+			end = o1
+		}
+		br.rangeSize = max(end-o0, 0)
+		br.checkRangeSize = true
+	}
+	return br, nil
 }
 
 func (c *client) ResolveBlob(ctx context.Context, repo string, digest ociregistry.Digest) (ociregistry.Descriptor, error) {
